@@ -1813,6 +1813,6 @@ META = dict(
         "under the same column key and outlives a package; positions are measure + slot/slots; the contradiction "
         "rule flags a None-able cursor ordered under its own falsiness; every difficulty becomes a chart; and in "
         "read_pkgs the integration steps have the shape 4*(measure difference)/bpm minutes, notes take their time "
-        "from the table entry of their own position, holds end at the entry of their tail. The flattened event list is sorted by the events' own position before the ascending tempo sweep (R9) — ordering the packages orders whole measures only. The tempo sweep itself (R10) is a merge of the sorted note positions with the sorted tempo events: the look-ahead tests the element that the iteration consumes next, inside its bounds, with 'event position <= note position'; the first element consumed is the first event; the events left after the last note are consumed too, so every tempo point is timed (F15, fixed). R11: no index / slice bound is taken from an untested find() (a text field that fills its width has no NUL: -1); the rule carries its own positive and negative example."),
+        "from the table entry of their own position, holds end at the entry of their tail. The flattened event list is sorted by the events' own position before the ascending tempo sweep (R9) — ordering the packages orders whole measures only. The tempo sweep itself (R10) is a merge of the sorted note positions with the sorted tempo events: the look-ahead tests the element that the iteration consumes next, inside its bounds, with 'event position <= note position'; the first element consumed is the first event; the events left after the last note are consumed too, so every tempo point is timed (F15, fixed). R11: no index / slice bound is taken from an untested find() (a text field that fills its width has no NUL: -1); the rule carries its own positive and negative example. The note positions of the sweep are sorted, and the loop over the tempo events after the last note advances the same running quantities as the sweep (R10)."),
     not_decided="float rounding of the integration; slot counts that do not divide a measure evenly",
 )
